@@ -22,6 +22,7 @@ pub fn def() -> PropDef {
         flavours: &["tokio"],
         outcome: None,
         extra_profiles: &["C02", "C03", "C04", "C05", "C06", "C07", "C10", "C11", "C12", "C13", "C16", "C17"],
+        adapt: None,
     }
 }
 
